@@ -207,16 +207,44 @@ def init_defaults(I, obj):
         try:
             node = I.repo.find(f'{cname}.__init__')
             for st in node.body:
+                if isinstance(st, _ast.AnnAssign) and st.value is not None:          # self.x: T = value
+                    st = _ast.Assign(targets=[st.target], value=st.value)
                 if isinstance(st, _ast.Assign) and len(st.targets) == 1 and isinstance(st.targets[0], _ast.Attribute) \
                         and isinstance(st.targets[0].value, _ast.Name) and st.targets[0].value.id == 'self' \
                         and isinstance(st.value, _ast.Constant):
                     consts[st.targets[0].attr] = st.value.value
+                elif isinstance(st, _ast.Assign) and len(st.targets) == 1 and isinstance(st.targets[0], _ast.Attribute) \
+                        and isinstance(st.targets[0].value, _ast.Name) and st.targets[0].value.id == 'self' \
+                        and st.targets[0].attr.startswith('_') and _empty_container(st.value) is not None:
+                    # a private memo field initialised to an EMPTY container: every object starts with its own empty one
+                    consts[st.targets[0].attr] = _EmptyOf(_empty_container(st.value))
         except KeyError:
             pass
         _INIT_CONSTS[cname] = consts
     for k, v in _INIT_CONSTS[cname].items():
-        obj.fields.setdefault(k, v)
+        if k not in obj.fields:
+            obj.fields[k] = v.make() if isinstance(v, _EmptyOf) else v
     return obj
+
+
+class _EmptyOf:
+    def __init__(self, kind_):
+        self.kind = kind_
+
+    def make(self):
+        from pyvc.builtins_ import SetV
+        return {'dict': dict, 'list': list, 'set': SetV}[self.kind]()
+
+
+def _empty_container(e):
+    import ast as _ast
+    if isinstance(e, _ast.Dict) and not e.keys:
+        return 'dict'
+    if isinstance(e, _ast.List) and not e.elts:
+        return 'list'
+    if isinstance(e, _ast.Call) and isinstance(e.func, _ast.Name) and e.func.id in ('dict', 'list', 'set') and not e.args and not e.keywords:
+        return e.func.id
+    return None
 
 
 def native_fallback(res, name, case, jobs, which_pid_serves=None):
